@@ -2,7 +2,7 @@
 """Regenerates MANIFEST.json from the table below (kept next to the checks so the two never drift)."""
 import json, subprocess
 
-HOOK_COMMITS = ["a9678e6", "5525d47", "bbb9e1e"]
+HOOK_COMMITS = ["a9678e6", "5525d47", "bbb9e1e", "95eb2d0"]
 
 # id -> (technique, level text, level note, design ref)
 CHECKS = {
